@@ -369,6 +369,12 @@ fn parse_fields<'input, 'state>(
 /// Checks if `ty` is [`syn::Type::Path`] and ends with segment matching `tail`
 /// and doesn't contain any generic parameters.
 fn is_type_path_ends_with_segment(ty: &syn::Type, tail: &str) -> bool {
+    // A type substituted for a `$t:ty` fragment of a declarative macro is wrapped into
+    // a `None`-delimited group.
+    let mut ty = ty;
+    while let syn::Type::Group(group) = ty {
+        ty = &group.elem;
+    }
     let syn::Type::Path(ty) = ty else {
         return false;
     };
